@@ -296,8 +296,16 @@ class Buffer:
             # TODO create an object method to update the hot buffer
             self.hot[b].observations['stored'].append(current_obs)
             self.hot[b].observations['transfer'] = None
+            # nothing is being moved after all
+            self._data_left_to_transfer = 0
             return False
         self._add_event(current_obs, "transfer", "started")
+        # Pick the slowest rate to transfer (a non-positive ColdBuffer rate
+        # means 'real time': the whole observation moves at once)
+        transfer_rate = self.cold[b].max_data_rate
+        if transfer_rate > 0:
+            transfer_rate = min(self.hot[b].max_ingest_data_rate,
+                                self.cold[b].max_data_rate)
         while True:
             # data_transfer_time = observation_size / self.cold.max_data_rate
             #
@@ -312,11 +320,12 @@ class Buffer:
 
             check = self.cold[b].receive_observation(
                 current_obs,
-                data_left_to_transfer
+                data_left_to_transfer,
+                transfer_rate
             )
 
             data_left_to_transfer = self.hot[b].transfer_observation(
-                current_obs, self.cold[b].max_data_rate, data_left_to_transfer
+                current_obs, transfer_rate, data_left_to_transfer
             )
             if check != data_left_to_transfer:
                 raise RuntimeError(
@@ -387,15 +396,17 @@ class Buffer:
                 self._add_event(current_obs, "transfer", "stopped")
                 break
 
+            # Pick the slowest rate to transfer, on both sides
+            transfer_rate = min(self.hot[b].max_ingest_data_rate,
+                                self.cold[b].max_data_rate)
             check = self.hot[b].receive_observation(
                 current_obs,
                 data_left_to_transfer,
-                # Pick the slowest rate to transfer
-                min(self.hot[b].max_ingest_data_rate, self.cold[b].max_data_rate)
+                transfer_rate
             )
 
             data_left_to_transfer = self.cold[b].transfer_observation(
-                current_obs, self.cold[b].max_data_rate, data_left_to_transfer
+                current_obs, transfer_rate, data_left_to_transfer
             )
             if check != data_left_to_transfer:
                 raise RuntimeError(
@@ -829,7 +840,7 @@ class ColdBuffer:
             self.observations['transfer'] = None
         return residual_data
 
-    def receive_observation(self, observation, residual_data):
+    def receive_observation(self, observation, residual_data, data_rate=None):
         """
         For an observation that needs to be moved to ColdBuffer storage,
         we must 'receive' it.
@@ -848,14 +859,16 @@ class ColdBuffer:
         """
 
         self.observations['transfer'] = observation
+        if data_rate is None:
+            data_rate = self.max_data_rate
 
-        if self.max_data_rate > 0:
-            if residual_data < self.max_data_rate:
+        if data_rate > 0:
+            if residual_data < data_rate:
                 self.current_capacity -= residual_data
                 residual_data = 0
             else:
-                self.current_capacity -= self.max_data_rate
-                residual_data -= self.max_data_rate
+                self.current_capacity -= data_rate
+                residual_data -= data_rate
 
         else:
             self.current_capacity -= observation.total_data_size
